@@ -330,6 +330,11 @@ func (g *gen) writerOp(fs *FileSpec, pInvalid int) Op {
 		}
 		op := content()
 		op.K, op.N = "link-swap", g.in(0, 2) // 0: a sibling with another name; 1, 2: a file in another directory
+		if fs.PollMS > 0 && op.N > 0 && g.pct(30) {
+			// the symlink is re-pointed first and its target only appears later,
+			// in a directory nobody watches: only the fallback poll can notice
+			op.K, op.D = "link-swap-late", int64(g.in(2, 5))*int64(fs.PollMS)*1e6
+		}
 		return op
 	}
 	if strings.HasPrefix(fs.Layout, "k8s") {
@@ -608,6 +613,24 @@ func (r *Run) writer(c *ClientSpec) {
 			changed()
 			simrt.Yield("w.link-swapped")
 			r.probe("symlink-repointed")
+		case "link-swap-late":
+			content := r.contentFor(op, st)
+			f.tsN++
+			d := filepath.Join(f.root, fmt.Sprintf("o%d", f.tsN))
+			os.Mkdir(d, 0755)
+			target := filepath.Join(d, "f.json")
+			tmp := f.path + ".lnk"
+			os.Remove(tmp)
+			os.Symlink(target, tmp)
+			simrt.Yield("w.link-made")
+			os.Rename(tmp, f.path)
+			changed()
+			simrt.Yield("w.link-swapped-dangling")
+			simrt.SleepIdle(time.Duration(op.D)) // several poll intervals with the path unreadable
+			os.WriteFile(target, content, 0644)
+			changed()
+			simrt.Yield("w.link-target-appeared")
+			r.probe("symlink-target-appeared-later")
 		case "k8s-swap":
 			var content []byte
 			if op.Str == "same" {
